@@ -18,10 +18,11 @@ theorem subB_sound (st : StructTable) : ∀ (n : Nat) (t t' : Ty), subB st n t t
     exact Sub.refl _
   | succ n ih =>
     intro t t' h
-    simp only [subB, Bool.or_eq_true, beq_iff_eq, Bool.and_eq_true] at h
-    cases h with
-    | inl h => subst h; exact Sub.refl _
-    | inr h =>
+    simp only [subB, Bool.or_eq_true, beq_iff_eq, Bool.and_eq_true, Option.isNone_iff_eq_none] at h
+    rcases h with (h | h) | h
+    · subst h; exact Sub.refl _
+    · exact Sub.scalar _ _ h.1.1.1 h.1.1.2 h.1.2 h.2
+    · skip
       obtain ⟨⟨h1, h2⟩, h3⟩ := h
       cases hl : st.lookup t.base with
       | none => simp [hl] at h3
